@@ -256,7 +256,7 @@ Proof. exact box_example. Qed.
         the check with an LP / KKT certificate on real calls). ---- *)
 From DK.Model Require Import Solve SolveOps.
 From DK.Gen Require Import Utils.
-From DK.Proofs Require Import GenUtils.
+From DK.Proofs Require Import GenProject.
 Theorem C18_source_utils_project : forall (A : Type) (NA : Num A) (minimize : problem A -> optresult A) (pc : projcall A),
   project_gen minimize pc = uproject_model minimize pc /\ project_problem_gen pc = uproject_problem pc
   /\ project_defaults_gen (A:=A) = uproject_defaults /\ forall user, project_options_gen user = uproject_options user.
